@@ -12,6 +12,8 @@ def can_id(prio, pf, ps, sa, dp=0):
 
 
 class Rec21:
+    P = 'd21'
+
     def __init__(self, repo, rng, nodes):
         """nodes: list of dict(maxcmdt, cmdt(None|us), bam(us), addrs=[accepted destinations])"""
         self.ex = pyexec.PyExec(repo)
@@ -26,7 +28,7 @@ class Rec21:
         self.txcount = 0
         self.dump_every = False
         for n in nodes:
-            self.do(f"d21.new {n['maxcmdt']} {'n' if n.get('cmdt') is None else n['cmdt']} {n.get('bam', 50000)} {pyexec.fmt_list(n['addrs'])}")
+            self.do(f"{self.P}.new {n['maxcmdt']} {'n' if n.get('cmdt') is None else n['cmdt']} {n.get('bam', 50000)} {pyexec.fmt_list(n['addrs'])}")
 
     @property
     def now(self):
@@ -47,8 +49,13 @@ class Rec21:
     def emit(self, src, outs, latency, lose=None):
         for o in outs:
             if o.startswith('tx '):
-                _, cid, data = o.split(' ', 2)
-                cid, data = int(cid), pyexec.parse_list(data)
+                f = o.split(' ')
+                if len(f) == 4:
+                    if f[2] == '0':
+                        continue          # base-format (FBFF) frame: the stacks do not receive those
+                    cid, data = int(f[1]), pyexec.parse_list(f[3])
+                else:
+                    cid, data = int(f[1]), pyexec.parse_list(f[2])
                 k = len(self.bus)
                 self.bus.append((self.now, src, cid, data))
                 for j in self.fifo:
@@ -64,19 +71,22 @@ class Rec21:
                 self.wake[src] = min(self.wake[src], self.now)
 
     def send(self, i, dp, pf, ps, prio, sa, data, latency, lose=None):
-        outs = self.do(f"d21.send {i} {dp} {pf} {ps} {prio} {sa} {pyexec.fmt_list(data)}")
+        outs = self.do(f"{self.P}.send {i} {dp} {pf} {ps} {prio} {sa} {pyexec.fmt_list(data)}" + self.send_extra())
         self.emit(i, outs, latency, lose)
         return outs[-1] == 'ret True'
 
+    def send_extra(self):
+        return ""
+
     def rx(self, i, cid, data, latency, lose=None):
-        outs = self.do(f"d21.rx {i} {cid} {pyexec.fmt_list(data)}")
+        outs = self.do(f"{self.P}.rx {i} {cid} {pyexec.fmt_list(data)}")
         self.emit(i, outs, latency, lose)
         if self.dump_every:
-            self.do(f"d21.dump {i}")
+            self.do(f"{self.P}.dump {i}")
         return outs
 
     def tick(self, i, latency, lose=None, tick_lat=0):
-        outs = self.do(f"d21.tick {i}")
+        outs = self.do(f"{self.P}.tick {i}")
         self.emit(i, outs, latency, lose)
         last = outs[-1] if outs else ''
         if last.startswith('wakeup '):
@@ -136,7 +146,7 @@ class Rec21:
 
     def dump_all(self):
         for i in range(len(self.nodes)):
-            self.do(f"d21.dump {i}")
+            self.do(f"{self.P}.dump {i}")
 
 
 def rand_payload(rng, n):
